@@ -35,6 +35,10 @@ const (
 // The dedicated reproducers of the findings run with Guards off.
 var Guards = true
 
+// ExtraGuards are per-behaviour guards (Behaviour.Guards): finding ids whose
+// trigger operations are skipped in this behaviour only.
+var ExtraGuards = map[string]bool{}
+
 var objKeys = []string{"k0", "k1", "k2"}
 
 // text tokens: index by V mod len. Includes the empty string (pure deletion),
@@ -200,6 +204,9 @@ func ApplyOp(d *document.Document, op Op, valBase int, fail string) (res Resolve
 				return nil
 			}
 			v := uniq(valBase, op.V)
+			if a.Len() > 0 {
+				res.Args["anchor"] = a.Get(a.Len() - 1).Marshal()
+			}
 			a.AddInteger(v)
 			res.Args["val"] = v
 		case "arr.ins":
@@ -210,6 +217,7 @@ func ApplyOp(d *document.Document, op Op, valBase int, fail string) (res Resolve
 			}
 			i := mod(op.A, a.Len())
 			v := uniq(valBase, op.V)
+			res.Args["anchor"] = a.Get(i).Marshal()
 			a.InsertIntegerAfter(i, v)
 			res.Args["idx"], res.Args["val"] = i, v
 		case "arr.del":
@@ -219,6 +227,7 @@ func ApplyOp(d *document.Document, op Op, valBase int, fail string) (res Resolve
 				return nil
 			}
 			i := mod(op.A, a.Len())
+			res.Args["deleted"] = a.Get(i).Marshal()
 			a.Delete(i)
 			res.Args["idx"] = i
 		case "arr.mov":
@@ -232,6 +241,7 @@ func ApplyOp(d *document.Document, op Op, valBase int, fail string) (res Resolve
 			if i == j {
 				j = mod(j+1, a.Len())
 			}
+			res.Args["anchor"], res.Args["moved"] = a.Get(i).Marshal(), a.Get(j).Marshal()
 			a.MoveAfterByIndex(i, j)
 			res.Args["prev"], res.Args["target"] = i, j
 		case "arr.movfront":
@@ -244,6 +254,7 @@ func ApplyOp(d *document.Document, op Op, valBase int, fail string) (res Resolve
 			if j == 0 {
 				j = 1
 			}
+			res.Args["moved"] = a.Get(j).Marshal()
 			a.MoveFront(a.Get(j).CreatedAt())
 			res.Args["target"] = j
 		case "arr.movlast":
@@ -253,6 +264,7 @@ func ApplyOp(d *document.Document, op Op, valBase int, fail string) (res Resolve
 				return nil
 			}
 			j := mod(op.B, a.Len()-1)
+			res.Args["anchor"], res.Args["moved"] = a.Get(a.Len()-1).Marshal(), a.Get(j).Marshal()
 			a.MoveLast(a.Get(j).CreatedAt())
 			res.Args["target"] = j
 		case "arr.set":
@@ -263,11 +275,16 @@ func ApplyOp(d *document.Document, op Op, valBase int, fail string) (res Resolve
 			}
 			i := mod(op.A, a.Len())
 			v := uniq(valBase, op.V)
+			if Guards && ExtraGuards["KF-ARRAYSET-GC-LEAK"] {
+				guard = "KF-ARRAYSET-GC-LEAK"
+				return nil
+			}
 			if Guards && a.Get(i).MovedAt() != nil {
 				// KF-ARRAY-SET-MOVED: Set on an element whose position was moved
 				guard = "KF-ARRAY-SET-MOVED"
 				return nil
 			}
+			res.Args["deleted"] = a.Get(i).Marshal()
 			a.SetInteger(i, v)
 			res.Args["idx"], res.Args["val"] = i, v
 		case "txt.edit":
